@@ -8,11 +8,11 @@
    blocks into messages and every interleaving [sched] of message delivery with the executor's loads.
    It is FALSE of the code as it stands in two regions (C02_skipcount_refuted, C02_rootmissing_refuted:
    recorded findings C02-F1, C02-F2) and was false in a third before the path-tracker repair
-   (C02_refuted_before_fix).  Proved so far for all plans: C02_online_onemsg_partial (requests that go online
-   at the root, response in one message) and C02_pathtracker_exact_partial; the reference [ref_outcome] is
+   (C02_refuted_before_fix).  Proved so far for all plans: C02_online_partial (requests that go online at the
+   root: any chunking, any delivery schedule), its one-message special case, and C02_pathtracker_exact_partial; the reference [ref_outcome] is
    evaluated against the real two-endpoint stack on every generated case besides (monitor MON02). *)
 From Coq Require Import List NArith Bool.
-From GS Require Import Base Ltree RecLoader ReqExec RecLoaderProofs C02Online.
+From GS Require Import Base Ltree RecLoader ReqExec RecLoaderProofs C02Online C02Chunks.
 Import ListNotations.
 Open Scope N_scope.
 
@@ -77,8 +77,8 @@ Print Assumptions C02_pathtracker_exact_partial.
    store.  Covers the path tracker (links below a link the responder lacks are loaded locally; the state is
    reset on leaving the subtree — needs wf_plan), the local fallback for blocks the responder does not resend,
    the dedup rule of IngestResponse, and the store writes.  [agree R L]: a CID names the same bytes in both stores.
-   Not yet covered by a theorem: a non-empty locally loaded prefix (verifier replay over the record trie) and
-   responses cut into several messages arriving during the traversal. *)
+   Not covered by this one: responses cut into several messages (C02_online_partial below) and a non-empty
+   locally loaded prefix (verifier replay over the record trie; no theorem yet). *)
 Theorem C02_online_onemsg_partial :
   forall t L R sched,
     wf_plan t = true -> agree R L ->
@@ -86,6 +86,18 @@ Theorem C02_online_onemsg_partial :
     model_outcome t L R [] sched = ref_outcome t L R.
 Proof. exact c02_online_onemsg. Qed.
 Print Assumptions C02_online_onemsg_partial.
+
+(* The same for EVERY chunking of the responder's metadata and blocks into messages ([sizes]) and EVERY
+   interleaving of message delivery with the executor's loads ([sched]: how many messages arrive before each load;
+   a load that finds nothing queued waits for the next message): delivery independence.  The simulation's
+   "not yet consumed response" is the loader's queue followed by the undelivered messages. *)
+Theorem C02_online_partial :
+  forall t L R sizes sched,
+    wf_plan t = true -> agree R L ->
+    aget (root_cid t) L = None -> aget (root_cid t) R <> None ->
+    model_outcome t L R sizes sched = ref_outcome t L R.
+Proof. intros t L R. exact (c02_online_chunks R t L). Qed.
+Print Assumptions C02_online_partial.
 
 (* Non-vacuity of the reference and of the model on a case outside the findings: a 7-link plan with an
    inline node, the responder lacking one subtree that the requestor partly holds, three chunkings and
